@@ -10,6 +10,7 @@ import (
 	"database/sql"
 	"database/sql/driver"
 	"encoding/json"
+	"strings"
 	"time"
 
 	"gorm.io/gorm"
@@ -100,6 +101,11 @@ type (
 	Names []string
 )
 
+// StrList is a slice type that implements driver.Valuer: ONE bound value everywhere.
+type StrList []string
+
+func (l StrList) Value() (driver.Value, error) { return strings.Join(l, "|"), nil }
+
 // Wrapped is a custom driver.Valuer (value receiver).
 type Wrapped struct{ S string }
 
@@ -137,4 +143,13 @@ func (r Reenter) GormValue(_ context.Context, _ *gorm.DB) clause.Expr {
 		h()
 	}
 	return clause.Expr{SQL: "?", Vars: []interface{}{r.V}}
+}
+
+// OwnerHookSQL is the statement Owner's AfterCreate hook runs for every created
+// record, through the handle gorm passes to the hook.
+const OwnerHookSQL = "UPDATE owners SET age = age + ? WHERE id < ?"
+
+// AfterCreate runs a nested statement: in a dry run it must not reach the driver either.
+func (o *Owner) AfterCreate(tx *gorm.DB) error {
+	return tx.Exec(OwnerHookSQL, 0, -1).Error
 }
